@@ -721,4 +721,109 @@ example :
     ((getCtx s 0).isSome, (s.execs[0]?).map (·.map (·.ctx)), (s.syms[0]?).map (·.map (·.ctx))) = (true, some (some 0), some (some 0)) := by
   decide
 
+/-! ## C15R5 — values that travel between two contexts through `bloc_ctx_store_variable` -/
+
+/-- `cross_context_isolation` for sequences that contain the extended calls (`rstore`: a store whose source is a library-owned
+pointer): a copying store FROM context `d` does not work in `d`; a moving store (item pointer below a variable of `d`) does. -/
+theorem cross_context_isolation_x (d : Nat) : ∀ (ops : List XOp) (s : State), untargetedX d s ops = true →
+    (runSeqX s ops).1.ctxs[d]? = s.ctxs[d]?
+  | [], _, _ => rfl
+  | o :: os, s, h => by
+    simp only [untargetedX, Bool.and_eq_true, Bool.not_eq_true'] at h
+    simp only [runSeqX]
+    rw [cross_context_isolation_x d os (stepX s o).1 h.2, stepX_untargeted s o d h.1]
+/-- `bloc_ctx_store_variable` with a pointer to a VARIABLE'S OWN CELL (what `bloc_ctx_load_variable` hands out — of any context,
+original or clone): the value is COPIED. The whole effect on the state: the target context gets the new slot value (same epoch),
+and the item / evaluation pointers of the TARGET context end (its old payload is released). Nothing else: the source context,
+the source pointer, every caller-owned value, every other handle and the error record are what they were. -/
+theorem rstore_copy_contract (s : State) (c sh v : Nat) (x x' : Ctx) (id : Nat) (r : VRef) (b : Val)
+    (hsl : symLive s sh c = some (x, id)) (hlive : liveSlot s v = some (.ref r)) (hk : (r.kind == VKind.eval) = false)
+    (hb : readRef s r = some b) (hvc : refIsVarCell r = true) (hst : storeInto x id b = .ok x') :
+    (opRstore s c sh v).2.res = Res1.truth true ∧ (opRstore s c sh v).2.fail = none ∧
+    (opRstore s c sh v).1 = killCtxItems (setCtx s c x') c := by
+  simp [opRstore, hsl, hlive, hk, hb, hvc, hst, aliasesTarget, Out.of]
+
+
+/-- … with an ITEM pointer (an element of a table, an item of a tuple — below a variable of any context, or below a caller-owned
+value): the value is MOVED. Target as above; the source cell keeps its type and becomes null, inside its container, and the item
+pointers of the source's family end. (Storing an item of context A into B changes A's variable.) -/
+theorem rstore_move_contract (s : State) (c sh v : Nat) (x x' : Ctx) (id : Nat) (r : VRef) (b : Val)
+    (hsl : symLive s sh c = some (x, id)) (hlive : liveSlot s v = some (.ref r)) (hk : (r.kind == VKind.eval) = false)
+    (hb : readRef s r = some b) (hvc : refIsVarCell r = false) (hal : aliasesTarget r c id = false) (hst : storeInto x id b = .ok x') :
+    (opRstore s c sh v).2.res = Res1.truth true ∧ (opRstore s c sh v).2.fail = none ∧
+    (opRstore s c sh v).1 = moveOut (killCtxItems (setCtx s c x') c) r b := by
+  simp [opRstore, hsl, hlive, hk, hb, hvc, hst, hal, Out.of]
+
+
+/-- Ownership after the copying store, handle by handle: symbol, expression and executable tables, error record and clock are
+unchanged; the host's value table loses exactly the item / evaluation pointers of the target context (every box, every pointer
+from `bloc_ctx_load_variable` — the source pointer included — and every pointer into another context stays); every context
+keeps epoch, liveness and generation, so every pointer that stayed is exactly as live as it was. -/
+theorem rstore_copy_ownership (s : State) (c sh v : Nat) (x x' : Ctx) (id : Nat) (r : VRef) (b : Val)
+    (hsl : symLive s sh c = some (x, id)) (hlive : liveSlot s v = some (.ref r)) (hk : (r.kind == VKind.eval) = false)
+    (hb : readRef s r = some b) (hvc : refIsVarCell r = true) (hst : storeInto x id b = .ok x') :
+    (opRstore s c sh v).1.syms = s.syms ∧ (opRstore s c sh v).1.exprs = s.exprs ∧ (opRstore s c sh v).1.execs = s.execs ∧
+    (opRstore s c sh v).1.err = s.err ∧ (opRstore s c sh v).1.clock = s.clock ∧
+    (opRstore s c sh v).1.vals = (killCtxItems s c).vals ∧
+    (opRstore s c sh v).1.ctxs = s.ctxs.set c x' ∧ x'.epoch = x.epoch ∧ x'.live = x.live := by
+  rw [(rstore_copy_contract s c sh v x x' id r b hsl hlive hk hb hvc hst).2.2]
+  have hkp := storeInto_keeps hst
+  exact ⟨rfl, rfl, rfl, rfl, rfl, rfl, rfl, hkp.1, hkp.2⟩
+
+
+/-- `cross_store_copies`: a value loaded from context `a` (pointer `r` to variable `ida` of `a`) is stored into variable `id` of
+ANOTHER context `c` — any two contexts: unrelated, clone and original, original and clone. Then
+(1) the store did not touch `a` at all (values, symbols, epoch: the source pointer stays valid and reads `b`);
+(2) the target variable holds `b`;
+(3) over ANY later call sequence (extended calls included) none of whose calls works in `a`, context `a` stays exactly as it was —
+    whatever is done to `c`, to the stored value, to clones;
+(4) and symmetrically for `c`: nothing done outside `c` changes what `c` holds. The two contexts share nothing: a copy. -/
+theorem cross_store_copies (s : State) (c sh v a ida : Nat) (x x' : Ctx) (id : Nat) (r : VRef) (b old : Val) (sy : Sym)
+    (hsl : symLive s sh c = some (x, id)) (hlive : liveSlot s v = some (.ref r)) (hk : (r.kind == VKind.eval) = false)
+    (hb : readRef s r = some b) (hroot : r.root = .slot a ida) (hpath : r.path = []) (hac : (c == a) = false)
+    (hsy : x.syms[id]? = some sy) (hold : x.vals[id]? = some old) (hst : storeInto x id b = .ok x') (ops : List XOp) :
+    (opRstore s c sh v).1.ctxs[a]? = s.ctxs[a]? ∧
+    readRef (opRstore s c sh v).1 r = some b ∧
+    (∃ xb, (opRstore s c sh v).1.ctxs[c]? = some xb ∧ xb.vals[id]? = some b) ∧
+    (untargetedX a (opRstore s c sh v).1 ops = true →
+      (runSeqX (opRstore s c sh v).1 ops).1.ctxs[a]? = s.ctxs[a]?) ∧
+    (untargetedX c (opRstore s c sh v).1 ops = true →
+      (runSeqX (opRstore s c sh v).1 ops).1.ctxs[c]? = (opRstore s c sh v).1.ctxs[c]?) := by
+  have hvc : refIsVarCell r = true := by simp [refIsVarCell, hroot, hpath]
+  have hctr := (rstore_copy_contract s c sh v x x' id r b hsl hlive hk hb hvc hst).2.2
+  have hgc := (getCtx_eq_some s c x).1 (symLive_some hsl)
+  have hlt : c < s.ctxs.length := by
+    rcases Nat.lt_or_ge c s.ctxs.length with h | h
+    · exact h
+    · rw [List.getElem?_eq_none h] at hgc; exact absurd hgc.1 (by simp)
+  have ha : (opRstore s c sh v).1.ctxs[a]? = s.ctxs[a]? := by
+    rw [hctr]; simp [killCtxItems, set_ne hac]
+  refine ⟨ha, ?_, ?_, ?_, ?_⟩
+  · have hg : getCtx (opRstore s c sh v).1 a = getCtx s a := by unfold getCtx; rw [ha]
+    rw [← hb]
+    unfold readRef
+    rw [hroot]
+    unfold readRoot
+    simp only [hg]
+  · refine ⟨x', ?_, storeInto_val hsy hold hst⟩
+    rw [hctr]; simp [killCtxItems, hlt]
+  · intro hu
+    rw [cross_context_isolation_x a ops _ hu, ha]
+  · intro hu
+    exact cross_context_isolation_x c ops _ hu
+
+-- non-vacuity: an integer variable of context 0 is loaded and stored into an untyped variable of context 1: the hypotheses of
+-- `rstore_copy_contract` / `cross_store_copies` hold in that state and the call answers `bloc_true`
+example :
+    let s := (runSeqX State.init [.base (.cnew 0), .base (.reg 0 0 "A1" .int 0), .base (.vint 0 5), .base (.store 0 0 0 true),
+                                  .base (.cnew 1), .base (.reg 1 1 "A2" .none 0), .base (.load 0 0 1)]).1
+    ((symLive s 1 1).map (·.2), (liveSlot s 1).isSome, ((readSlot s 1).map (·.type)), (opRstore s 1 1 1).2.fail,
+      ((opRstore s 1 1 1).1.ctxs[1]?).map (fun y => y.vals.map (·.type))) = (some 0, true, some Ty.int, none, some [Ty.int]) := by
+  decide
+-- the later sequence may do anything outside context 0 — here: overwrite the copy, purge and free context 1
+example :
+    let s := (runSeqX State.init [.base (.cnew 0), .base (.reg 0 0 "A1" .int 0), .base (.cnew 1), .base (.reg 1 1 "A2" .none 0), .base (.load 0 0 1)]).1
+    untargetedX 0 s [.rstore 1 1 1, .base (.vint 2 9), .base (.store 1 1 2 true), .base (.cpurge 1), .base (.cfree 1)] = true := by
+  decide
+
 end BlocV.C15
